@@ -27,8 +27,8 @@ SPEC = {
                   "are in-memory fakes. The certificate retention rule of the sparse-certificate server (consensus/engine.go + IsPermanentCert) is mirrored with a certificate range of 40.",
     "rule": "case = one height replayed, one import attempt, one real fast sync or one following block applied on a fast-synced node; distinct_nontrivial = distinct non-empty diffs "
             "(per job / generation) + distinct corrupted archives (snapshot, class, content hash) + distinct real syncs (generation, server, world, start height, snapshot height, batch size, interruption)",
-    "jobs": [Job("sync", "verifsim", "^TestVerifC11$", shards=(8, 16), timeout=(900, 3600)),
-             Job("realsync", "protocol", "^TestVerifC11FastSync$", shards=(6, 12), timeout=(900, 3600), extra_tags="c11")],
+    "jobs": [Job("sync", "verifsim", "^TestVerifC11$", shards=(8, 16), timeout=(900, 7200)),
+             Job("realsync", "protocol", "^TestVerifC11FastSync$", shards=(6, 12), timeout=(900, 7200), extra_tags="c11")],
     "floors": {"diffs_replayed": (2000, 20000), "diffs_nonempty": 200, "server_reorgs": 100, "snapshot_roundtrips": 20, "max_chunks_in_one_archive": 2,
                "corruption:byte-flip": (2000, 20000), "corruption:truncate-512": 300, "corruption:truncate-random": 100, "corruption:chunk-drop": 20,
                "corruption:chunk-duplicate": 20, "corruption:chunk-reorder": 4, "corruption:chunk-from-other-archive": 10,
